@@ -603,13 +603,20 @@ class Lock(Model):
         self.lid = Lock.count
 
     def py_enter(self, I):
+        # mutual exclusion holds among the holders of *one* lock object: a contract that cannot show that every thread gets
+        # the same object here switches the grouping off (hooks['lock_not_shared']) - the block's actions then interleave
+        if I.hooks.get('lock_not_shared'):
+            self.grouping = False
+            return self
+        self.grouping = True
         I.hooks['atomic_depth'] = I.hooks.get('atomic_depth', 0) + 1
         if I.hooks['atomic_depth'] == 1:
             I.hooks['group_counter'] = I.hooks.get('group_counter', 0) + 1
         return self
 
     def py_exit(self, I, exc):
-        I.hooks['atomic_depth'] -= 1
+        if getattr(self, 'grouping', True):
+            I.hooks['atomic_depth'] -= 1
         return False
 
     def py_getattr(self, I, name):
